@@ -195,6 +195,9 @@ mut("sub_advance_back_swapped", I, """        if self.left.len() > count {
             slice_take(&mut self.left, take_left..);""", """        if self.left.len() > count {
             let take_left = count - self.left.len();
             slice_take(&mut self.left, take_left..);""", ["C11:SUB1", "C08:TWIN"])
+mut("inv_size_replace_unchecked", L, """        let drop_range = len..size;
+        self.size = len;""", """        let drop_range = len..size;
+        let _ = core::mem::replace(&mut self.size, len + size);""", ["C04:INV1"])
 mut("eq_mut_array_self_recursion", L, """    fn eq(&self, other: &&'a mut [U; M]) -> bool {
         self == *other
     }""", """    fn eq(&self, other: &&'a mut [U; M]) -> bool {
